@@ -456,16 +456,35 @@ def _broadcast(ck, P, cfg):
                 op = Q.RMW_OPS[votes[0].aop]
                 step = X.const_int(votes[0].children[1])
                 paths, _ = Q.path_conditions(f, c, start_block=f.cfg.position(votes[0])[0])
-                if kind == "var" and paths:
+
+                def is_vote(n):
+                    n = Q.resolve_local(f, n)
+                    return n is votes[0] or (n.k == "DeclRefExpr" and kind == "var" and n.did == dst.did)
+
+                def last_voter(core, t, depth=0):
+                    """core (with truth t) says: the vote RMW returned 1"""
+                    core = X.strip(core)
+                    if depth > 4 or core is None:
+                        return False
+                    if core.k == "UnaryOperator" and core.op == "!":
+                        return last_voter(core.children[0], not t, depth + 1)
+                    if core.k == "DeclRefExpr" and core.d.get("sc") == "local":
+                        r = Q.resolve_local(f, core)
+                        return r is not core and not (r.k == "DeclRefExpr" and r.did == core.did) and last_voter(r, t, depth + 1)
+                    if core.k == "BinaryOperator" and core.op in ("==", "!="):
+                        l, r = X.strip(core.children[0]), X.strip(core.children[1])
+                        want = t if core.op == "==" else (not t)
+                        for a_, b_ in ((l, r), (r, l)):
+                            if is_vote(a_) and X.const_int(b_) == 1 and op == "sub" and step == 1:
+                                return want
+                    return False
+                if paths:
                     ok = True
                     for conds in paths:
                         hit = False
                         for core, t in conds:
-                            core = X.strip(core)
-                            if core.k == "BinaryOperator" and core.op == "==" and t:
-                                l, r = X.strip(core.children[0]), X.strip(core.children[1])
-                                if l.k == "DeclRefExpr" and l.did == dst.did and X.const_int(r) == 1 and op == "sub" and step == 1:
-                                    hit = True
+                            if last_voter(core, t):
+                                hit = True
                         if not hit:
                             ok = False
                             detail = "a path broadcasts under [%s]" % ", ".join("%s=%s" % (X.show(cc), t) for cc, t in conds)
